@@ -45,7 +45,7 @@ def check_rejects(R, q, x, d, eff, status, o, fmt):
 def run(R):
     if not R.build():
         return
-    R.lean(["C04"])
+    R.lean(["C04", "C04x"])
     quick = R.tier == "quick"
     rng = R.rng
     ac = cases.apply_cases(rng, 12000 if quick else 150000, 12 if quick else 30)
